@@ -24,9 +24,12 @@ static void attachAggregator() {
         uint8_t st = ri.hash.size() > 1 ? ri.hash[1] : 0; Chooser ch{[&](uint32_t n) { st = (uint8_t)(st * 37 + 11); return n ? st % n : 0u; }, [&]() { st = (uint8_t)(st * 37 + 11); return st; }};
         uint64_t lvl = ri.hasLevel ? ri.level : 0; Header h; h.login = "srv";
         if (lvl >= 255) return sealV2(0x221, h, {aggrRespPayload(2, ri.reqId, true, 0x0104, "level too high", nullptr, 0)}, keyB, 1); // nothing can be aggregated above level 255
-        BuildOpts o; o.fixedDoc = true; o.doc = ri.hash; o.wantRfc = 0; o.wantCal = 1; o.wantPub = 0; o.wantAuth = 1; o.minChains = 1; o.maxChains = lvl >= 100 ? 1 : 2; o.fixedTime = true; o.t = 1500000100; o.fixedPubTime = true; o.p = o.t + 50; o.calSalt = 9; o.firstCorr = (int)lvl; o.allowMeta = lvl < 100; o.allowLegacy = lvl < 100;
+        BuildOpts o; o.fixedDoc = true; o.doc = ri.hash; o.wantRfc = 0; o.wantCal = 1; o.wantPub = 0; o.wantAuth = 1; o.minChains = 1; o.maxChains = lvl >= 100 ? 1 : 2; o.fixedTime = true; o.t = 1500000100; o.fixedPubTime = true; o.p = o.t + 50; o.calSalt = 9; unsigned extra = (lvl < 100 && ri.hash.size() > 2) ? ri.hash[2] % 3u : 0u; /* the aggregator's own tree may add levels below its first link: a level correction that survives the subtraction of the requested level */ o.firstCorr = (int)(lvl + extra); o.allowMeta = lvl < 100; o.allowLegacy = lvl < 100;
         Sig s = buildConsistent(ch, o);
         if (lvl >= 100) { s.chains.resize(1); while (s.chains[0].links.size() > 1) s.chains[0].links.pop_back(); std::vector<bool> dirs; for (auto &l : s.chains[0].links) dirs.push_back(l.isLeft); uint64_t sh = 1; shapeBits(dirs, sh); s.chains[0].index.assign(1, sh); relink(s); }
+        if (extra) stats().count("aggregator:first-link-correction-above-the-requested-level");
+        if (ri.version == 1) { Tlv pl = aggrRespPayload(1, ri.reqId, true, 0, "", &s, lvl); if (ri.hash.size() > 3 && (ri.hash[3] & 1)) { Tlv cf(0x10); cf.add(Tlv::u64(0x01, 17)); cf.add(Tlv::str(0x04, "ksi+tcp://parent.example.test:3332")); Tlv ack(0x11); ack.add(Tlv::u64(0x01, 1000)); ack.add(Tlv::u64(0x02, 10)); pl.kids.push_back(cf); pl.kids.push_back(ack); stats().count("aggregator:v1-reply-with-config-and-ack"); }
+            return sealV1(0x200, h, pl, keyB, 1); }
         return sealV2(0x221, h, {aggrRespPayload(2, ri.reqId, true, 0, "", &s, lvl)}, keyB, 1); };
     srv.attach();
 }
@@ -61,7 +64,7 @@ static void blockSignerCase(Dec &d, Case &c) {
     size_t nj = 1 + d.pick(3); std::vector<BLeaf> junk; for (size_t i = 0; i < nj; i++) { BLeaf l; l.hash = genImp(d, algs[d.pick(3)]); l.level = 0; l.meta = d.flag(); l.cid = "junk"; junk.push_back(l); } bool junkSigned = d.flag();
     c.desc = "block-signer alg=" + num(p.alg) + (p.masking ? " masking(iv " + num((long long)p.iv.size()) + " bytes)" : " no-masking") + " leaves=" + num((long long)n) + " with-metadata=" + num((long long)metas) + " reset-after=" + num((long long)nj) + (junkSigned ? "+sign" : "");
     c.cls("block-signer"); if (p.masking) c.cls("block-signer:masking"); if (metas) c.cls("block-signer:metadata"); if (p.masking && metas) c.cls("block-signer:masking+metadata"); c.nontrivial = n >= 2 || p.masking || metas;
-    Ctx ctx; KSI_CTX_setAggregator(ctx, "ksi+tcp://aggr.example.test:3333", kLogin.c_str(), kKey.c_str());
+    Ctx ctx; KSI_CTX_setAggregator(ctx, "ksi+tcp://aggr.example.test:3333", kLogin.c_str(), kKey.c_str()); if ((n + p.alg) % 3 == 0) { KSI_CTX_setOption(ctx, KSI_OPT_AGGR_PDU_VER, (void *)(size_t)KSI_PDU_VERSION_1); c.cls("block-signer:pdu-v1"); } /* derived: no additional draw */
     // ---- a newly created signer ----------------------------------------------------------------------------------------------
     BOut a; { KSI_BlockSigner *s = newSigner(ctx, p); if (!s) { VF_FAIL(c, "C16:block-signer:new-refused", "KSI_BlockSigner_new failed: " + c.desc); return; }
         KSI_DataHash *pl = nullptr; KSI_BlockSigner_getPrevLeaf(s, &pl); a.prevAtStart = imprintOfHash(pl); KSI_DataHash_free(pl); feed(ctx, s, leaves, true, a); KSI_BlockSigner_free(s); }
